@@ -51,6 +51,8 @@ ALLOWED_SUBST = {
                          "== iter(); `it:` is Verus' ghost name for the iterator)"),
     "iter_named_self0_iter": (r"\bfor\s+(\w+)\s+in\s+self\.0\.iter\(\)", r"for \1 in it: self.0.iter()",
                               "`for x in self.0.iter()` -> `for x in it: self.0.iter()` (`it:` is Verus' ghost name for the iterator)"),
+    "iter_named_rules": (r"\bfor\s+(\w+)\s+in\s+&self\.rules\b", r"for \1 in it: self.rules.iter()",
+                         "`for x in &self.rules` -> `for x in it: self.rules.iter()` (same desugaring; `it:` is Verus' ghost iterator name)"),
     "iter_ref_vec": (r"\bfor\s+(\w+)\s+in\s+&self\.0\b", r"for \1 in self.0.iter()",
                      "`for x in &self.0` -> `for x in self.0.iter()` (same desugaring: <&Vec as IntoIterator>::into_iter == iter())"),
     "iter_ref_field": (r"\bfor\s+(\w+)\s+in\s+&self\.(\w+)\b", r"for \1 in self.\2.iter()",
@@ -60,6 +62,22 @@ ALLOWED_SUBST = {
     "vec_range_index_mut": (r"(\bself\.\w+)\[([^\]\n]*\.\.[^\]\n]*)\]", r"\1.as_mut_slice()[\2]",
                             "`vec[a..b]` in a mutable place -> `vec.as_mut_slice()[a..b]` (std: Vec's IndexMut<Range> is "
                             "`&mut (**self)[range]`, deref_mut == as_mut_slice; vstd specifies the slice form only)"),
+    "drop_local_marker": (r"(?s)#\[derive\(better_any::Tid\)\]\s*struct Marker<T>\(PhantomData<fn\(\) -> T>\);\s*impl<'a, T: TidAble<'a>> CustomState<'a> for Marker<T> \{\}",
+                          "",
+                          "function-local item definitions (`struct Marker<T>` + its `CustomState` impl) moved out of the body "
+                          "into the unit's preamble mirror (items are not executable statements)"),
+    "iter_cloned_collect": (r"(\w+)\.into_iter\(\)\.cloned\(\)\.collect\(\)", r"iter_cloned_collect(\1)",
+                            "`v.into_iter().cloned().collect()` -> mirrored `iter_cloned_collect(v)` (assumed std meaning: the vector of "
+                            "element-wise clones, same length and order; Verus rejects iterator adapter chains)"),
+    "choose_multiple_collect": (r"(\w+)\.choose_multiple\((\w+), (\w+)\)\.collect\(\)", r"choose_multiple_collect(\1, \2, \3)",
+                                "`s.choose_multiple(rng, n).collect()` -> mirrored `choose_multiple_collect(s, rng, n)` (assumed rand "
+                                "meaning: min(n, len) DISTINCT members of the slice)"),
+    "iter_max_cloned_or": (r"(\w+)\.iter\(\)\.max\(\)\.cloned\(\)\.unwrap_or\((\w+)\)", r"iter_max_or(&\1, \2)",
+                           "`v.iter().max().cloned().unwrap_or(d)` -> mirrored `iter_max_or(&v, d)` (assumed std meaning: the maximum "
+                           "element, or d for an empty vector)"),
+    "iter_map_collect": (r"(\w+)\.iter\(\)\.map\((\|.*)\)\.collect\(\)", r"iter_map_collect(&\1, \2)",
+                         "`v.iter().map(f).collect()` -> mirrored `iter_map_collect(&v, f)` (assumed std meaning: element-wise image, "
+                         "same length and order; the closure text is unchanged)"),
     "phantom_fn": (r"PhantomData<fn\(\) -> (\w+)>", r"PhantomData<\1>",
                    "`PhantomData<fn() -> P>` -> `PhantomData<P>` (variance marker only; Verus has no fn-pointer types)"),
     "temp_guard_rotate": (r"(?m)^(\s*)state\.populations_mut\(\)\.rotate\(self\.n\);", r"\1let mut verif_tmp = state.populations_mut(); verif_tmp.rotate(self.n);",
@@ -130,6 +148,10 @@ def extract_struct(relpath, name, rw):
     # widen visibility of the item and of its fields
     if not text.lstrip().startswith("pub"):
         text = "pub " + text.lstrip()
+        rw.add("vis-widened", "item/field visibility widened to pub")
+        m = rustlex.mask(text)
+    elif re.match(r"\s*pub\s*\([^)]*\)", text):
+        text = re.sub(r"^\s*pub\s*\([^)]*\)", "pub", text, count=1)
         rw.add("vis-widened", "item/field visibility widened to pub")
         m = rustlex.mask(text)
     ob = rustlex.first_open_brace(m, 0)
@@ -275,15 +297,21 @@ def extract_fn(relpath, impl_header, name, opts, spec_text, loops, hints, substs
     if opts.get("expect_loops") is not None and int(opts["expect_loops"]) != len(found_loops):
         raise AnchorError(f"{name}: expected {opts['expect_loops']} loops, found {len(found_loops)}")
     for where, rx, text in hints:
-        # match against single (masked) lines of the body
+        # match against single lines of the body; `/rx/#k` selects the k-th of exactly-known many matches
+        occ = None
+        if "\x00" in rx:
+            rx, occ = rx.split("\x00")
+            occ = int(occ)
         pos, hitn = 0, []
         for line in body.split("\n"):
             if re.search(rx, line):
                 hitn.append((pos, pos + len(line)))
             pos += len(line) + 1
-        if len(hitn) != 1:
+        if occ is None and len(hitn) != 1:
             raise AnchorError(f"{name}: hint anchor /{rx}/ matched {len(hitn)} lines")
-        la, lb = hitn[0]
+        if occ is not None and occ >= len(hitn):
+            raise AnchorError(f"{name}: hint anchor /{rx}/#{occ}: only {len(hitn)} matches")
+        la, lb = hitn[occ or 0]
         if where == "before":
             inserts.append((la, text.rstrip() + "\n"))
         else:
@@ -480,11 +508,11 @@ def expand(template_path):
                     loops.append([int(t.split()[1]), buf])
                     cur = buf
                 elif t.startswith("//@hint "):
-                    m = re.match(r"//@hint (before|after) /(.*)/\s*$", t)
+                    m = re.match(r"//@hint (before|after) /(.*)/(?:#(\d+))?\s*$", t)
                     if not m:
                         raise AnchorError(f"bad hint directive: {t}")
                     buf = []
-                    hints.append([m.group(1), m.group(2), buf])
+                    hints.append([m.group(1), m.group(2) + ("\x00" + m.group(3) if m.group(3) else ""), buf])
                     cur = buf
                 elif t.startswith("//@subst "):
                     substs.append(t[len("//@subst "):].strip())
